@@ -16,8 +16,9 @@ MaxLen == 65535
 Rng(s) == {s[k] : k \in 1..Len(s)}
 NP == Len(c.pk)
 Written == c.kind # "garbage"
-\* indices of the packets the writer accepted and put on the wire, in order
-AccIdx == SelectSeq([i \in 1..NP |-> i], LAMBDA i : c.wr[i].ok /\ c.wr[i].wrote > 0)
+\* indices of the packets the writer accepted and put on the wire, in order (tcpPacketConn: without those longer than
+\* the application's ReadFrom buffer - a packet connection refuses such a packet and goes on with the next)
+AccIdx == SelectSeq([i \in 1..NP |-> i], LAMBDA i : c.wr[i].ok /\ c.wr[i].wrote > 0 /\ ~c.adrop[i])
 NA == Len(AccIdx)
 \* the k-th accepted packet is complete on the (possibly truncated) stream and fits the reader's buffer
 Fits(k) == LET i == AccIdx[k] IN c.pk[i] <= c.caps[i] /\ c.wr[i].s + 2 + c.pk[i] <= c.slen
@@ -28,7 +29,7 @@ WireOK == \A i \in 1..NP : LET w == c.wr[i] IN
             IF w.ok /\ w.wrote > 0 THEN w.hdr = c.pk[i] /\ w.blen = c.pk[i] /\ w.same ELSE w.wrote = 0
 \* the record is self-consistent (offsets add up); anything else is a driver fault, not a verdict
 RecordOK ==
-  /\ Len(c.wr) = NP /\ Len(c.caps) = NP
+  /\ Len(c.wr) = NP /\ Len(c.caps) = NP /\ Len(c.adrop) = NP
   /\ \A i \in 1..NP : c.wr[i].s = (IF i = 1 THEN 0 ELSE c.wr[i - 1].s + c.wr[i - 1].wrote)
   /\ \A k \in 1..Len(c.rd) : LET r == c.rd[k] IN
        /\ r.p = (IF k = 1 THEN 0 ELSE c.rd[k - 1].p + c.rd[k - 1].g)
